@@ -51,14 +51,24 @@ func startSys(window int, queue int) *sys {
 }
 
 func (s *sys) stop() bool {
-	ok := s.backend.Close(3 * time.Second)
-	close(s.quit)
+	// a backend whose global mutex is held forever would block Close itself: bound the whole shutdown
+	res := make(chan bool, 1)
+	go func() {
+		ok := s.backend.Close(3 * time.Second)
+		close(s.quit)
+		select {
+		case <-s.done:
+		case <-time.After(3 * time.Second):
+			ok = false
+		}
+		res <- ok
+	}()
 	select {
-	case <-s.done:
-	case <-time.After(3 * time.Second):
+	case ok := <-res:
+		return ok
+	case <-time.After(8 * time.Second):
 		return false
 	}
-	return ok
 }
 
 type out struct {
@@ -444,6 +454,70 @@ func runC15(c *hx.Ctx) {
 		o.syslog(n, s)
 		c.Stat("scenarios", 1)
 	}
+	// a backlogged subscriber with overlapping subscriptions of differing granted QoS: one publisher alternates
+	// between two topics at each QoS while the subscriber withholds its acknowledgements (the window fills, both
+	// session queues fill), then everything is acknowledged and drained: per (publisher, QoS, delivery QoS) order
+	for _, w := range []int{1, 2} {
+		n := o.scn(fmt.Sprintf("c15 backlog window=%d", w))
+		s := startSys(w, 10000)
+		sub, err := dialPeer("bsub", s.port, true)
+		if err != nil || sub.connect("bsub", true, nil) == nil {
+			o.direct("order", n, false, "could not connect")
+			s.stop()
+			continue
+		}
+		sub.state = newSubState()
+		sub.subscribe(1, "ba", 1)
+		sub.subscribe(2, "bb", 0)
+		sub.mu.Lock()
+		sub.hold = 1 << 20
+		sub.mu.Unlock()
+		pp, _ := dialPeer("bpub", s.port, true)
+		pp.connect("bpub", true, nil)
+		id := 0
+		sent := 0
+		for i := 0; i < 60; i++ {
+			for q := 0; q <= 1; q++ {
+				topic := "ba"
+				if (i+q)%2 == 1 {
+					topic = "bb"
+				}
+				m := &packet.Publish{Message: packet.Message{Topic: topic, Payload: payload(7, q, i), QOS: packet.QOS(q)}}
+				if q > 0 {
+					id++
+					m.ID = packet.ID(id)
+					sent++
+					deadline := time.Now().Add(2 * time.Second)
+					for sent-ackCount(pp) >= 5 && time.Now().Before(deadline) {
+						time.Sleep(200 * time.Microsecond)
+					}
+				}
+				pp.send(m)
+			}
+		}
+		time.Sleep(30 * time.Millisecond)
+		// acknowledge step by step so that the dequeuer drains both queues while they are both non-empty
+		for k := 0; k < 200; k++ {
+			sub.releaseHeld()
+			sub.mu.Lock()
+			sub.hold = 1 << 20
+			sub.mu.Unlock()
+			time.Sleep(2 * time.Millisecond)
+			if len(sub.received()) >= 120 {
+				break
+			}
+		}
+		sub.releaseHeld()
+		sub.idle(30*time.Millisecond, 2*time.Second)
+		got := sub.received()
+		ok, d := checkOrder(got)
+		o.direct("order", n, ok, fmt.Sprintf("backlogged subscriber received %d publishes, %s", len(got), d))
+		sub.close()
+		pp.close()
+		s.stop()
+		o.syslog(n, s)
+		c.Stat("scenarios", 1)
+	}
 }
 
 // ------------------------------------------------------------------- C13
@@ -819,6 +893,27 @@ func enc(p packet.Generic) []byte {
 	return buf[:n]
 }
 
+// rawPublish builds a QoS 0 PUBLISH by hand (independent of the library's encoder, which a
+// regression may have made refuse boundary values the decoder still admits)
+func rawPublish(topic string, payload []byte) []byte {
+	rl := 2 + len(topic) + len(payload)
+	out := []byte{0x30}
+	for {
+		b := byte(rl % 128)
+		rl /= 128
+		if rl > 0 {
+			b |= 0x80
+		}
+		out = append(out, b)
+		if rl == 0 {
+			break
+		}
+	}
+	out = append(out, byte(len(topic)>>8), byte(len(topic)))
+	out = append(out, topic...)
+	return append(out, payload...)
+}
+
 func connectBytes(id string) []byte {
 	c := packet.NewConnect()
 	c.ClientID = id
@@ -859,6 +954,10 @@ func hostiles(c *hx.Ctx) []hostile {
 		rawSend(port, connectBytes("h3"), enc(&packet.Publish{Message: packet.Message{Topic: "a\x00b", Payload: []byte("w")}}))
 		rawSend(port, connectBytes("h3"), enc(&packet.Publish{ID: 7, Message: packet.Message{Topic: big, Payload: []byte(big), QOS: 2}}))
 		rawSend(port, connectBytes("h3"), enc(&packet.Subscribe{ID: 1, Subscriptions: []packet.Subscription{{Topic: big, QOS: 1}, {Topic: "#", QOS: 2}, {Topic: "+/+/#", QOS: 0}}}))
+		// boundary values built by hand: the longest topic, the longest topic with a payload, a 65535-byte will topic
+		rawSend(port, connectBytes("h3"), rawPublish(big, nil))
+		rawSend(port, connectBytes("h3"), rawPublish(big, []byte(big)))
+		rawSend(port, connectBytes("h3"), rawPublish(big[:65534], []byte("x")))
 		// a will with empty topic
 		rawSend(port, []byte{0x10, 0x13, 0x00, 0x04, 'M', 'Q', 'T', 'T', 0x04, 0x06, 0x00, 0x00, 0x00, 0x01, 'w', 0x00, 0x00, 0x00, 0x01, 'x'})
 	})
@@ -899,6 +998,26 @@ func hostiles(c *hx.Ctx) []hostile {
 			}(i)
 		}
 		wg.Wait()
+	})
+	add("subscriber-with-full-queue-dies", func(port string, c *hx.Ctx) {
+		// a subscriber that never acknowledges fills its window and queue; a publisher's QoS 1 publish then
+		// blocks inside the backend until the subscriber's connection goes away — it must be released then
+		subp, err := dialPeer("stall", port, false)
+		if err != nil || subp.connect("stall", true, nil) == nil {
+			return
+		}
+		subp.subscribe(1, "stall/#", 1)
+		pubp, err := dialPeer("stallpub", port, true)
+		if err != nil || pubp.connect("stallpub", true, nil) == nil {
+			return
+		}
+		for i := 1; i <= 1100; i++ {
+			pubp.send(&packet.Publish{ID: packet.ID(i), Message: packet.Message{Topic: "stall/x", Payload: []byte("p"), QOS: 1}})
+		}
+		time.Sleep(30 * time.Millisecond)
+		subp.close()
+		time.Sleep(30 * time.Millisecond)
+		pubp.close()
 	})
 	add("wildcard-flood-to-witness-topic", func(port string, c *hx.Ctx) {
 		p, err := dialPeer("flood", port, false)
